@@ -54,6 +54,16 @@ func routingMeta(run *report.Run) {
 }
 
 func init() {
+	// one WebService whose root path is 3, 5, 6 or 7 variables, several routes with variables of their own,
+	// served in turn: the names a value is bound to are those of the root and of THIS route
+	manyVars := func(router string) routing.Opts {
+		o := routing.FullOpts(router)
+		o.ManyVarRoots, o.MaxSvcs, o.Contest, o.Faults = true, 1, false, false
+		if o.MaxRoutes < 4 {
+			o.MaxRoutes = 4
+		}
+		return o
+	}
 	checks["C04"] = func(run *report.Run) error {
 		run.Rule = "same generator as C01; a case is non-trivial when some WebService root matched the URL; the projection compared is the parameter map of the invoked route (root and route variables, regex variables, suffix tokens, tail wildcard with 0–3 segments, custom verbs)"
 		routingMeta(run)
@@ -62,6 +72,8 @@ func init() {
 		if err := routing.CheckStreams(run, p, []routing.StreamSpec{
 			{Name: "curly", Opts: routing.FullOpts("curly"), NCfg: n, PerCfg: 20},
 			{Name: "jsr", Opts: routing.FullOpts("jsr"), NCfg: n, PerCfg: 20},
+			{Name: "curly-manyvars", Opts: manyVars("curly"), NCfg: n / 6, PerCfg: 24},
+			{Name: "jsr-manyvars", Opts: manyVars("jsr"), NCfg: n / 6, PerCfg: 24},
 		}); err != nil {
 			return err
 		}
@@ -164,6 +176,81 @@ func init() {
 		ns := sizes(run, 150, 3000)
 		single := routing.PropSpec{ID: "C03", SpecKey: "C03", Proj: routing.ProjWhich, NeedWF: true,
 			Classes: []string{"C03routes2", "C03roots2"}}
+		curlyPairs := routing.PairSpec{ID: "C03",
+			Applies: func(p *routing.PairCase) bool {
+				return p.Class["distinctMethodPath"] == "1" && p.Class["sameShapeRoots"] == "0"
+			},
+			Known: func(p *routing.PairCase) string {
+				if p.Class["scoresSeparate"] == "0" {
+					return "F05"
+				}
+				return ""
+			}}
+		jsrPairs := routing.PairSpec{ID: "C03", Applies: func(p *routing.PairCase) bool { return p.Class["distinctMethodPath"] == "1" }}
+		// the search around a case on which model and implementation disagree: the same table in twelve
+		// other registration orders, the disagreeing request and sixty requests near it — a ranking that
+		// changed shows as an outcome that depends on the order (inside the quantifier of the pair property:
+		// for RouterJSR311 on tables with literal roots only)
+		nearBusy := false
+		single.Near = func(run *report.Run, o routing.Opts, cfg routing.Config, req routing.Req) bool {
+			if nearBusy {
+				return false
+			}
+			ps := curlyPairs
+			if o.Router == "jsr" {
+				ps = jsrPairs
+				for _, s := range cfg.Services {
+					for _, t := range s.RootToks {
+						if t.Kind != "lit" {
+							return false
+						}
+					}
+				}
+			}
+			nearBusy = true
+			defer func() { nearBusy = false }()
+			r := rng.New(run.Seed ^ 0x5eed03)
+			reqs := []routing.Req{req}
+			for i := 0; i < 60; i++ {
+				rq := routing.GenReq(r, o, cfg)
+				if i%3 == 0 {
+					rq.Path = req.Path
+				}
+				reqs = append(reqs, rq)
+			}
+			many := func(r *rng.R, cfg routing.Config, reqs []routing.Req) []routing.Variant {
+				var vs []routing.Variant
+				for j := 0; j < 12; j++ {
+					v := routing.Variant{Name: "perm-near", Cfg: routing.Permute(r, cfg), Reqs: make([]*routing.Req, len(reqs))}
+					for i := range reqs {
+						rq := reqs[i]
+						v.Reqs[i] = &rq
+					}
+					vs = append(vs, v)
+				}
+				return vs
+			}
+			o.ViaServe = false
+			pairs, err := routing.RunVariantsOn(run.Seed^0x03, []routing.Table{{Cfg: cfg, Reqs: reqs}}, o, many)
+			if err != nil {
+				return false
+			}
+			before := 0
+			for _, v := range run.Violations {
+				if !v.NoInput {
+					before++
+				}
+			}
+			ps.NoModel = true // the disagreement itself is being reported by the caller
+			routing.CheckPairs(run, ps, o.Router+"-near", pairs)
+			after := 0
+			for _, v := range run.Violations {
+				if !v.NoInput {
+					after++
+				}
+			}
+			return after > before
+		}
 		jlit := routing.FullOpts("jsr")
 		jlit.RootVars, jlit.RootRe = false, false
 		if err := routing.CheckStreams(run, single, []routing.StreamSpec{
@@ -197,16 +284,9 @@ func init() {
 		if err != nil {
 			return err
 		}
-		routing.CheckPairs(run, routing.PairSpec{ID: "C03", Single: &single, Opts: &co,
-			Applies: func(p *routing.PairCase) bool {
-				return p.Class["distinctMethodPath"] == "1" && p.Class["sameShapeRoots"] == "0"
-			},
-			Known: func(p *routing.PairCase) string {
-				if p.Class["scoresSeparate"] == "0" {
-					return "F05"
-				}
-				return ""
-			}}, "curly", pairs)
+		cp := curlyPairs
+		cp.Single, cp.Opts = &single, &co
+		routing.CheckPairs(run, cp, "curly", pairs)
 		if routing.WitnessF05() {
 			run.KnownHits["F05"]++
 		}
